@@ -10,6 +10,10 @@ The transformations are syntactic identities of Python (no judgement involved):
   swapeq     - `a == K` / `a != K` with a constant on the right  ->  constant on the left
   elif2else  - `elif` chains rewritten as nested `else: if`   (what ast.unparse of a rebuilt tree does anyway)
   alias      - `import copy` users: a module-level alias `_deepcopy = copy.deepcopy` replaces the attribute calls
+  ifexpret   - `return A if C else B`  ->  if C: return A / else: return B
+  comp2loop  - `x = [E for t in it]`  ->  x = []; for t in it: x.append(E)
+  expandaug  - `obj.attr += <int>`  ->  obj.attr = obj.attr + <int>
+  fstr2format- f'a {x} b'  ->  'a {} b'.format(x)
 and combinations of them.  A violation is tolerated only when it is an open finding of
 known_findings.json re-keyed by the transformation (same rule, same function).
 
@@ -126,6 +130,84 @@ class Alias(ast.NodeTransformer):
         return node
 
 
+class IfExpReturn(ast.NodeTransformer):
+    """return A if C else B  ->  if C: return A / else: return B"""
+    def _block(self, stmts):
+        out = []
+        for st in stmts:
+            if isinstance(st, ast.Return) and isinstance(st.value, ast.IfExp):
+                out.append(ast.If(test=st.value.test, body=[ast.Return(value=st.value.body)], orelse=[ast.Return(value=st.value.orelse)]))
+            else:
+                out.append(st)
+        return out
+
+    def generic_visit(self, node):
+        super().generic_visit(node)
+        for f in ('body', 'orelse', 'finalbody'):
+            v = getattr(node, f, None)
+            if isinstance(v, list) and v and isinstance(v[0], ast.stmt):
+                setattr(node, f, self._block(v))
+        return node
+
+
+class CompToLoop(ast.NodeTransformer):
+    """x = [E for t in it]  ->  x = []; for t in it: x.append(E)      (single generator, no conditions, plain name target)"""
+    def _block(self, stmts):
+        out = []
+        for st in stmts:
+            if isinstance(st, ast.Assign) and len(st.targets) == 1 and isinstance(st.targets[0], ast.Name) and isinstance(st.value, ast.ListComp) \
+                    and len(st.value.generators) == 1 and not st.value.generators[0].ifs and not st.value.generators[0].is_async:
+                name = st.targets[0].id
+                g = st.value.generators[0]
+                uses = [n for n in ast.walk(st.value) if isinstance(n, ast.Name) and n.id == name]
+                if uses:
+                    out.append(st)
+                    continue
+                out.append(ast.Assign(targets=[ast.Name(id=name, ctx=ast.Store())], value=ast.List(elts=[], ctx=ast.Load()), lineno=st.lineno))
+                out.append(ast.For(target=g.target, iter=g.iter, orelse=[], body=[ast.Expr(value=ast.Call(
+                    func=ast.Attribute(value=ast.Name(id=name, ctx=ast.Load()), attr='append', ctx=ast.Load()), args=[st.value.elt], keywords=[]))]))
+            else:
+                out.append(st)
+        return out
+
+    def generic_visit(self, node):
+        super().generic_visit(node)
+        for f in ('body', 'orelse', 'finalbody'):
+            v = getattr(node, f, None)
+            if isinstance(v, list) and v and isinstance(v[0], ast.stmt):
+                setattr(node, f, self._block(v))
+        return node
+
+
+class ExpandAug(ast.NodeTransformer):
+    """obj.attr += <int constant>  ->  obj.attr = obj.attr + <constant>   (numbers only: no in-place semantics involved)"""
+    def visit_AugAssign(self, node):
+        if isinstance(node.target, ast.Attribute) and isinstance(node.op, (ast.Add, ast.Sub)) and isinstance(node.value, ast.Constant) \
+                and isinstance(node.value.value, int) and not isinstance(node.value.value, bool):
+            load = ast.Attribute(value=node.target.value, attr=node.target.attr, ctx=ast.Load())
+            return ast.Assign(targets=[node.target], value=ast.BinOp(left=load, op=node.op, right=node.value), lineno=node.lineno)
+        return node
+
+
+class FStrToFormat(ast.NodeTransformer):
+    """f'a {x} b'  ->  'a {} b'.format(x)   (plain {expr} fields only, no braces in the literal parts)"""
+    def visit_JoinedStr(self, node):
+        parts, args = [], []
+        for v in node.values:
+            if isinstance(v, ast.Constant) and isinstance(v.value, str):
+                if '{' in v.value or '}' in v.value:
+                    return node
+                parts.append(v.value)
+            elif isinstance(v, ast.FormattedValue) and v.conversion == -1 and v.format_spec is None:
+                parts.append('{}')
+                args.append(v.value)
+            else:
+                return node
+        if not args:
+            return node
+        return ast.Call(func=ast.Attribute(value=ast.Constant(value=''.join(parts)), attr='format', ctx=ast.Load()), args=args, keywords=[])
+
+
 def transform(src: str, names) -> str:
     tree = ast.parse(src)
     for n in names:
@@ -139,7 +221,8 @@ def transform(src: str, names) -> str:
                 idx = max(i for i, st in enumerate(tree.body) if isinstance(st, (ast.Import, ast.ImportFrom))) + 1
                 tree.body.insert(idx, ast.parse('_deepcopy = copy.deepcopy').body[0])
             continue
-        t = {'locals': Locals, 'tempret': TempRet, 'invert': Invert, 'swapeq': SwapEq}[n]()
+        t = {'locals': Locals, 'tempret': TempRet, 'invert': Invert, 'swapeq': SwapEq, 'ifexpret': IfExpReturn, 'comp2loop': CompToLoop,
+             'expandaug': ExpandAug, 'fstr2format': FStrToFormat}[n]()
         tree = t.visit(tree)
     ast.fix_missing_locations(tree)
     return ast.unparse(tree) + '\n'
@@ -154,7 +237,12 @@ VARIANTS = [
     ('alias', ['alias']),
     ('locals+tempret', ['locals', 'tempret']),
     ('invert+swapeq', ['invert', 'swapeq']),
+    ('ifexpret', ['ifexpret']),
+    ('comp2loop', ['comp2loop']),
+    ('expandaug', ['expandaug']),
+    ('fstr2format', ['fstr2format']),
     ('all', ['locals', 'tempret', 'invert', 'swapeq', 'alias']),
+    ('all2', ['ifexpret', 'comp2loop', 'expandaug', 'fstr2format', 'locals', 'invert']),
 ]
 
 
